@@ -97,7 +97,49 @@ def run(ctx):
     ctx.cov["evaluations"] += len(cases)
     ctx.cov["traces_validated_against_impl"] += len(cases)
     ctx.notes["chunk_distribution"] = dist
-    ctx.cov["samples"] += cases[7:10]
+    ctx.cov["samples"] += [json.dumps(x)[:300] for x in cases[13:16]]
+
+    # in-the-exponent correspondence for encrypt / aggregate / join / decrypt
+    ne = 40 if ctx.quick else 1500
+    rc, out = c.run_bin(binp, ["encgen", ctx.seed, ne], timeout=1200)
+    encs = [json.loads(l) for l in out.splitlines() if l.startswith('{"decs"') or '"k":"enc"' in l]
+    R = 0x73eda753299d7d483339d80809a1d80553bda402fffe5bfeffffffff00000001
+    exprs = ["enc_case %d%%Z %s%%N %s%%N %s" % (int(e["sk"], 16), e["x"], e["y"],
+             " ".join("%d%%Z" % int(k, 16) for k in e["rand"])) for e in encs]
+    terms = c.coq_eval(ctx, "enc", "From Coq Require Import ZArith NArith List. Import ListNotations.\n"
+                       "From CB Require Import Crypto.ElGamalInst.", exprs, shard=100)
+    lines = []
+    meta = []
+    for e, t in zip(encs, terms):
+        if t == "None":
+            ctx.violation({"case": e}, "model could not chunk the amount (u64_to_chunks_checked failed)")
+            continue
+        pts, decs = t[1]
+        for hexpt, (a, b) in list(zip(e["pts"], pts)) + list(zip(e["decs"], decs)):
+            lines.append(json.dumps({"pt": hexpt, "a": "%064x" % (a % R), "b": "%064x" % (b % R)}))
+            meta.append(e)
+        # decryptions must be pure multiples of h with the chunk sums / joined value as coefficient
+        x, y = int(e["x"]), int(e["y"])
+        want = [((x & 0xffffffff) + (y & 0xffffffff)) % R, ((x >> 32) + (y >> 32)) % R, (x + y) % R]
+        got = [d[1] % R for d in decs]
+        if [d[0] for d in decs] != [0, 0, 0] or got != want:
+            ctx.violation({"case": e, "model_decs": decs}, "model: aggregate does not decrypt to the chunk-wise sums")
+    rc, out = c.run_bin(binp, ["lincheck"], timeout=1200, input=("\n".join(lines) + "\n").encode())
+    verdicts = [l for l in out.splitlines() if l in ("ok", "MISMATCH")]
+    if len(verdicts) != len(lines):
+        ctx.violation({"layer": "lincheck", "output": out[-1000:]}, "lincheck harness failed", no_input=True)
+    bad = [i for i, v in enumerate(verdicts) if v != "ok"]
+    for i in bad[:3]:
+        ctx.violation({"case": meta[i], "line": json.loads(lines[i])},
+                      "encrypt/aggregate/join: implementation point differs from the model's a*g+b*h")
+    ctx.cov["evaluations"] += len(encs)
+    ctx.cov["traces_validated_against_impl"] += len(encs)
+    ctx.notes["enc_cases"] = {"cases": len(encs), "points_checked": len(lines), "mismatches": len(bad)}
+    for e in encs:
+        k = c.digest([e["x"], e["y"], e["sk"]])
+        seen.add(k); nontrivial.add(k)
+    if encs:
+        ctx.cov["samples"].append({"k": "enc", "x": encs[0]["x"], "y": encs[0]["y"], "model_coeffs": str(terms[0])[:300]})
 
     # direct oracles on encryption / transfers
     m = 6 if ctx.quick else 150
@@ -130,7 +172,7 @@ def run(ctx):
         ctx.violation({"case": r}, "encrypted-transfer oracle failed: %s" % json.dumps(r)[:300])
     ctx.cov["evaluations"] += len(res)
     ctx.notes["oracle_distribution"] = kinds
-    ctx.cov["samples"] += res[:2]
+    ctx.cov["samples"] += [json.dumps(x)[:400] for x in res[:2]]
     ctx.cov["distinct_nontrivial"] = len(nontrivial)
     ctx.cov["rule"] = ("chunk cases: boundary-heavy u64 (0,1,2^k,2^k+-1,MAX,random) x all 7 chunk sizes, chunk lists from the encoder, "
                        "masked random lists up to 70 long and hostile unmasked lists; non-trivial = implementation returned a value (no panic); "
